@@ -1989,6 +1989,14 @@ static int64_t eval3(Node *node, char ***label) {
   }
   case ND_ADDR:
     return eval_rval(node->lhs, label);
+  case ND_DEREF:
+    // An lvalue of array type, e.g. `a[1]` of `int a[2][2]`, decays to
+    // the address of its first element, which is the pointer's value.
+    if (!label)
+      error_tok(node->tok, "not a compile-time constant");
+    if (node->ty->kind != TY_ARRAY)
+      error_tok(node->tok, "invalid initializer");
+    return eval2(node->lhs, label);
   case ND_LABEL_VAL:
     *label = &node->unique_label;
     return 0;
